@@ -131,7 +131,7 @@ MORE = {
     "C10": " After every crash and between any two writer steps a fresh session reads through signac's own read path (old or new, nothing raised, targets still old-or-new afterwards); Job.clear/reset through a fresh handle; a device that runs full at ANY step and stays full; the migration's project-document write with all of the migration module's own I/O numbered.",
     "C11": " Without a fault every scenario ends like its reference run; rmtree error handlers are modelled. Also clone onto an existing job and into an empty destination directory, each with and without a persistent cache listing all jobs.",
     "C12": " Scripts include init(force=True) of the same job (pre-emption bound 3 in the quick tier).",
-    "C13": " Also: one exclude list object reused for two syncs, data files named like signac's own files, an empty destination directory named by a source id, destination-only files named like document backups, exclude patterns that match signac's own file names, symbolic links to directories inside a source job, an I/O fault in the middle of copying one file (never a normal return with a truncated file).",
+    "C13": " Also: one exclude list object reused for two syncs, data files named like signac's own files, an empty destination directory named by a source id, destination-only files named like document backups, exclude patterns that match signac's own file names, symbolic links to directories inside a source job, an I/O fault in the middle of copying one file (never a normal return with a truncated file), a file against a directory of the same name (reported, never skipped silently).",
     "C14": " FileSync.update with SYMBOLIC integer modification times (both getmtime answers are solver variables): overwritten iff the source is strictly newer.",
     "C15": " Also: exclude patterns inside source-only sub-directories and newly cloned jobs, job-level dry runs into uninitialised or half-made destinations, two deep syncs in one process with an in-place rewrite of equal size and mtime, user-written document strategies under dry_run, parallel runs report the conflict a sequential run reports.",
     "C16": " Round trips with empty directories, zip payloads, targets whose path starts like the importing workspace's, paths with '..' or absolute paths (rejected), un-normalised origins, the empty state point with a callable schema.",
